@@ -69,6 +69,16 @@ var relatedNameGroups = [][]genName{
 	{{2, []byte("a.example.com")}, {2, []byte("b.example.com")}, {2, []byte("c.example.com.")}, {2, []byte("d.example.com")}, {2, []byte("e.example.com")}},
 	{{2, []byte("a.example.org.")}, {2, []byte("b.example.org")}, {2, []byte("c.example.org")}, {2, []byte("d.example.org")}, {2, []byte("e.example.org")}, {2, []byte("F.EXAMPLE.ORG.")}},
 	{{2, []byte("a.example.net")}, {2, []byte("b.example.net")}, {2, []byte("c.example.net")}, {2, []byte("localhost")}, {2, []byte("e.example.net")}, {2, []byte("f.example.net.")}, {2, []byte("co.uk")}},
+	// onion names next to their own wildcard (wildcards are allowed under .onion), next to names the public-suffix parser
+	// refuses, and in every position
+	{{2, []byte(strings.Repeat("a", 56) + ".onion")}, {2, []byte("*." + strings.Repeat("a", 56) + ".onion")}},
+	{{2, []byte("localhost")}, {2, []byte("*." + strings.Repeat("b", 56) + ".onion")}, {2, []byte("www.example.com")}},
+	{{2, []byte("facebookcorewwwi.onion")}, {2, []byte("*." + strings.Repeat("a", 56) + ".onion")}, {2, []byte("*.example.com")}},
+	// names without a dot: one that is itself a delegated TLD, one that is not, an absolute name
+	{{2, []byte("exchange")}, {2, []byte("autodiscover")}, {2, []byte("mail.example.com")}},
+	{{2, []byte("com")}, {2, []byte("localhost")}},
+	{{2, []byte("email")}, {2, []byte("www.example.com.")}, {2, []byte("intranet")}},
+	{{2, []byte("office")}, {2, []byte("office")}, {2, []byte("server1")}},
 	// names related as strings but not as names: a final label that ends in (starts with, contains) another name's final
 	// label, a name that ends in another name without a label boundary between them
 	{{2, []byte("www.example.net")}, {2, []byte("host.intranet")}},
@@ -504,6 +514,33 @@ func certZoo() []ZooCert {
 			}
 		}
 	}
+	// (6c) certificate policies: every ordered pair and some triples of anyPolicy, the DV / OV / EV / S/MIME policies and an
+	// unknown one, on a subscriber certificate and on a subordinate CA of the current BR era
+	{
+		pols := []asn1.ObjectIdentifier{{2, 5, 29, 32, 0}, {2, 23, 140, 1, 2, 1}, {2, 23, 140, 1, 2, 2}, {2, 23, 140, 1, 1}, {2, 23, 140, 1, 5, 1, 1}, {1, 3, 6, 1, 4, 1, 55555, 7}}
+		var lists [][]asn1.ObjectIdentifier
+		for _, a := range pols {
+			lists = append(lists, []asn1.ObjectIdentifier{a})
+			for _, b := range pols {
+				lists = append(lists, []asn1.ObjectIdentifier{a, b})
+			}
+		}
+		lists = append(lists, []asn1.ObjectIdentifier{pols[0], pols[1], pols[2]}, []asn1.ObjectIdentifier{pols[1], pols[0], pols[2]}, []asn1.ObjectIdentifier{pols[1], pols[2], pols[0]},
+			[]asn1.ObjectIdentifier{pols[0], pols[5], pols[0]}, []asn1.ObjectIdentifier{pols[3], pols[0], pols[5], pols[1]})
+		for li, l := range lists {
+			for ca := 0; ca < 2; ca++ {
+				t := leafTemplate()
+				t.NotBefore, t.NotAfter = time.Date(2024, 2, 1, 0, 0, 0, 0, time.UTC), time.Date(2024, 12, 1, 0, 0, 0, 0, time.UTC)
+				t.PolicyIdentifiers = l
+				if ca == 1 {
+					t.IsCA, t.BasicConstraintsValid, t.KeyUsage, t.ExtKeyUsage = true, true, stdx509.KeyUsageCertSign|stdx509.KeyUsageCRLSign, []stdx509.ExtKeyUsage{stdx509.ExtKeyUsageServerAuth}
+					t.Subject = pkix.Name{Country: []string{"US"}, Organization: []string{"Example CA"}, CommonName: "Example Sub CA"}
+					t.DNSNames = nil
+				}
+				issueT("policies", fmt.Sprintf("%d-%d", li, ca), t)
+			}
+		}
+	}
 	// (7) own-key signatures under another issuer name
 	for _, cc := range ownKeyCerts() {
 		out = append(out, ZooCert{cc, "own-key"})
@@ -765,6 +802,33 @@ func crlZoo() []CorpusCRL {
 				if crl, err := safeParseCRL(der); err == nil {
 					crlZooCache = append(crlZooCache, CorpusCRL{fmt.Sprintf("zoo-crl-serial-%d-%d-%d", bl, vi, dup), der, crl})
 				}
+			}
+		}
+	}
+	// times in an order no encoder produces: nextUpdate before (or equal to) thisUpdate, by swapping the two UTCTime fields of
+	// a regular list (the signature is not looked at by the parser or the lints)
+	for i, gap := range []time.Duration{24 * time.Hour, 5 * 24 * time.Hour, 400 * 24 * time.Hour, time.Second} {
+		for _, withEntry := range []bool{false, true} {
+			tu := time.Date(2024, 3, 10, 12, 0, 0, 0, time.UTC)
+			tmpl := &stdx509.RevocationList{Number: big.NewInt(int64(7000 + i)), ThisUpdate: tu, NextUpdate: tu.Add(gap)}
+			if withEntry {
+				tmpl.RevokedCertificateEntries = []stdx509.RevocationListEntry{{SerialNumber: big.NewInt(99), RevocationTime: tu.Add(-time.Hour)}}
+			}
+			der, err := stdx509.CreateRevocationList(crand.Reader, tmpl, k.caCert, k.caKey)
+			if err != nil {
+				continue
+			}
+			a := []byte(tu.Format("060102150405Z"))
+			b := []byte(tu.Add(gap).Format("060102150405Z"))
+			ia, ib := bytes.Index(der, a), bytes.Index(der, b)
+			if ia < 0 || ib < 0 || ia == ib {
+				continue
+			}
+			sw := append([]byte{}, der...)
+			copy(sw[ia:], b)
+			copy(sw[ib:], a)
+			if crl, err := safeParseCRL(sw); err == nil {
+				crlZooCache = append(crlZooCache, CorpusCRL{fmt.Sprintf("zoo-crl-times-swapped-%d-%v", i, withEntry), sw, crl})
 			}
 		}
 	}
